@@ -103,12 +103,23 @@ func (e *Exec) cellTerm(t *Term, members []byte) *Term {
 	return acc
 }
 
-// scanStub: FindAllStringSubmatchIndex on data with symbolic bytes.
-func (e *Exec) scanStub(re *regexp.Regexp, s Str, n Value) Value {
+type cellKey struct {
+	pat string
+	t   *Term
+}
+
+// cellString forks each symbolic byte of s on its cell for re and returns the string of
+// cell representatives (exact for the matcher). The cell chosen for a byte term is remembered
+// for the rest of the path, so that repeated matching of the same data costs no further queries.
+func (e *Exec) cellString(re *regexp.Regexp, s Str) string {
 	cells, err := cellsFor(re)
 	if err != nil {
 		panic(abortErr{"fragment", "cannot analyse pattern " + re.String() + ": " + err.Error()})
 	}
+	if e.path.cellChoice == nil {
+		e.path.cellChoice = map[cellKey]int{}
+	}
+	pat := re.String()
 	buf := make([]byte, s.Len())
 	for i := 0; i < s.Len(); i++ {
 		switch b := s.at(i).(type) {
@@ -118,6 +129,10 @@ func (e *Exec) scanStub(re *regexp.Regexp, s Str, n Value) Value {
 			}
 			buf[i] = cells.reps[cells.cellOf[b]]
 		case Sym:
+			if k, ok := e.path.cellChoice[cellKey{pat, b.t}]; ok {
+				buf[i] = cells.reps[k]
+				continue
+			}
 			if !e.path.branch(e, e.tt.BVCmp("bvult", b.t, e.tt.BV(0x80, 8)), "regexp ascii") {
 				panic(abortErr{"fragment", "non-ASCII byte in data matched by a regexp on symbolic input"})
 			}
@@ -137,11 +152,18 @@ func (e *Exec) scanStub(re *regexp.Regexp, s Str, n Value) Value {
 			if chosen < 0 {
 				chosen = order[len(order)-1]
 			}
+			e.path.cellChoice[cellKey{pat, b.t}] = chosen
 			buf[i] = cells.reps[chosen]
 		}
 	}
+	return string(buf)
+}
+
+// scanStub: FindAllStringSubmatchIndex on data with symbolic bytes.
+func (e *Exec) scanStub(re *regexp.Regexp, s Str, n Value) Value {
+	buf := e.cellString(re, s)
 	e.path.noteNative("(*regexp.Regexp).FindAllStringSubmatchIndex (symbolic data: byte-cell abstraction of the compiled pattern, ASCII only)")
-	ms := re.FindAllStringSubmatchIndex(string(buf), int(e.needInt(n, "regexp n")))
+	ms := re.FindAllStringSubmatchIndex(buf, int(e.needInt(n, "regexp n")))
 	if ms == nil {
 		return Slice{}
 	}
